@@ -237,6 +237,36 @@ mut('ok-c06-state-tuple', ['C06'], AU,
     [("        if self.state in ('WaitingForAuth', 'WaitingForData',\n                          'WaitingForBegin'):\n            self.reject()",
       "        if self.state is not None:\n            self.reject()")], kind='benign')
 
+# ---- C07 ------------------------------------------------------------------
+mut('c07-prefix-agree-without-ok', ['C07'], AU,
+    [("        if self.unixFDSupport and self.guid is not None:\n            self.sendAuthMessage(b'BEGIN')", "        if self.unixFDSupport:\n            self.sendAuthMessage(b'BEGIN')")],
+    ['C07.D1'], note='pre-fix twin of 41e6337')
+mut('c07-prefix-error-after-negotiate', ['C07'], AU,
+    [("        if self.guid is not None:\n            # OK was already received: this ERROR answers NEGOTIATE_UNIX_FD.\n            # Authentication succeeded, only descriptor passing is refused.\n            self.sendAuthMessage(b'BEGIN')\n            self.authenticated = True\n        else:\n            self.authTryNextMethod()",
+      "        self.authTryNextMethod()")], ['C07.D2'], note='pre-fix twin of c7c1668')
+mut('c07-prefix-data-silent', ['C07'], AU,
+    [("\n        else:\n            self.sendAuthMessage(b'ERROR \"Unexpected DATA\"')\n", "\n")], ['C07.D4'], note='pre-fix twin of 9a38231')
+mut('c07-prefix-cookiedir', ['C07'], AU,
+    [("        self.cookie_dir = None  # used for testing only", "        self.cookiedir = None  # used for testing only")], ['C07.D6'], note='pre-fix twin of 7d1fde4')
+mut('c07-authenticated-before-hex', ['C07'], AU,
+    [("        try:\n            self.guid = binascii.unhexlify(line)\n        except BaseException:\n            raise DBusAuthenticationFailed('Invalid guid in OK message')\n        else:\n            if self.unixFDSupport:\n                self.sendAuthMessage(b'NEGOTIATE_UNIX_FD')\n            else:\n                self.sendAuthMessage(b'BEGIN')\n                self.authenticated = True",
+      "        if not self.unixFDSupport:\n            self.sendAuthMessage(b'BEGIN')\n            self.authenticated = True\n        try:\n            self.guid = binascii.unhexlify(line)\n        except BaseException:\n            raise DBusAuthenticationFailed('Invalid guid in OK message')\n        else:\n            if self.unixFDSupport:\n                self.sendAuthMessage(b'NEGOTIATE_UNIX_FD')")],
+    ['C07.D1'])
+mut('c07-reappend-mechanism', ['C07'], AU,
+    [("        self.authMech = self.authOrder.pop()\n", "        self.authMech = self.authOrder.pop()\n        self.authOrder.insert(0, self.authMech)\n")], ['C07.D3'])
+mut('c07-unknown-swallowed', ['C07'], AU,
+    [("        if m:\n            m(args)\n        else:\n            raise DBusAuthenticationFailed(\n                'Invalid DBus authentication protocol message: '\n                + line.decode(\"ascii\", \"replace\")\n            )",
+      "        if m:\n            m(args)\n        else:\n            log.msg('ignoring ' + line.decode(\"ascii\", \"replace\"))")], ['C07.D5'])
+mut('c07-order-not-reversed', ['C07'], AU,
+    [("        self.authOrder = self.preference[:]\n        self.authOrder.reverse()\n", "        self.authOrder = self.preference[:]\n")], ['C07.D3'])
+mut('c07-unix-ok-begin-directly', ['C07'], AU,
+    [("            if self.unixFDSupport:\n                self.sendAuthMessage(b'NEGOTIATE_UNIX_FD')\n            else:\n                self.sendAuthMessage(b'BEGIN')\n                self.authenticated = True",
+      "            if self.unixFDSupport:\n                self.sendAuthMessage(b'NEGOTIATE_UNIX_FD')\n            self.sendAuthMessage(b'BEGIN')\n            self.authenticated = True")], ['C07.D2'])
+mut('c07-exhausted-no-close', ['C07'], AU,
+    [("        if not self.authOrder:\n            raise DBusAuthenticationFailed()\n", "        if not self.authOrder:\n            return\n")], ['C07.D3', 'C07.D4'])
+mut('ok-c07-pop0', ['C07'], AU,
+    [("        self.authOrder = self.preference[:]\n        self.authOrder.reverse()\n", "        self.authOrder = list(reversed(self.preference))\n")], kind='benign')
+
 # benign variants --------------------------------------------------------------
 mut('ok-int16-condexpr', ['C01', 'C02'], M,
     [("return 2, [struct.pack(lendian and '<h' or '>h', var)]",
